@@ -1,4 +1,5 @@
 import Hertz.Proofs.Shutdown
+import Hertz.Proofs.ShutdownSpecRefine
 import Hertz.Gen.Shutdown
 /-!
 # C18 — graceful shutdown lets in-flight requests finish and bounds the wait
@@ -303,12 +304,131 @@ theorem shutdown_never_stuck (cfg : Cfg) (s : State) :
 
 example : (step { exitWait := 5 } { (init 0) with win := .deferred .nil, dl := 5, now := 5 } .shutFinish).isSome = true := by decide
 
+/-! ## the trace specification holds of the observable projection of every run
+
+`obsRun cfg (init n) acts` is the event sequence a harness records around a run of the model (the
+inverse of the driver's `obsActs`: `listen ↦ L`, `accept ↦ A c`, `reqArrive ↦ Q c k rc`,
+`handlerRet ↦ X c k b`, `clientRead ↦ R c k cl true`, `shutCall ↦ S k`, `callerRet ↦ T k err`,
+`hookStart/End ↦ HS/HE j`, dials, `B/C/E`; every other step is unobservable; time stamp = model clock).
+`allOk okListen` is the environment discipline "`Shutdown` is only called once the listener exists"
+(what the harness does; it excludes the known finding *Shutdown before Listen* and implies
+`lnSkipped = false`, the hypothesis of `no_accept_after_shutdown_partial`).  The theorems below are
+about the very functions of `Hertz.ShutdownSpec` the driver evaluates on the REAL server's events. -/
+section spec
+open Hertz.ShutdownSpec
+
+/-- **close_after_shutdown, trace form without ghosts.**  After the first `HS`/`T` event no handler exit
+`X c k` is followed by a complete response `R c k` lacking `Connection: close` — for every run, every
+schedule, any number of connections / callers / hooks. -/
+theorem obs_close_after_shutdown (cfg : Cfg) (n : Nat) (acts : List Act) (s : State)
+    (hr : run cfg (init n) acts = some s) (hok : allOk okListen cfg (init n) acts = true) :
+    closeAfterShutdown (obsRun cfg (init n) acts).toArray = [] :=
+  obs_closeAfterShutdown (fun _ _ h => h) hr hok
+
+/-- **no_accept_after_shutdown, trace form.** -/
+theorem obs_no_accept_after_shutdown (cfg : Cfg) (n : Nat) (acts : List Act) (s : State)
+    (hr : run cfg (init n) acts = some s) (hok : allOk okListen cfg (init n) acts = true) :
+    noAcceptAfter (obsRun cfg (init n) acts).toArray = [] :=
+  obs_noAcceptAfter (fun _ _ h => h) hr hok
+
+/-- **second_shutdown_errors, trace form**: a call made after some call returned gets
+`errStatusNotRunning`; a call that is alone until it returns gets `nil` — unless the 30 s cap of
+`transport.Shutdown` fires (`hto`; see `spec_first_call_timeout_fails_at`). -/
+theorem obs_second_shutdown_errors (cfg : Cfg) (n : Nat) (acts : List Act) (s : State)
+    (hr : run cfg (init n) acts = some s) (hok : allOk okListen cfg (init n) acts = true)
+    (hto : ∀ k, ¬ Has (obsRun cfg (init n) acts) (.T k "timeout")) :
+    errorsReported (obsRun cfg (init n) acts).toArray = [] :=
+  obs_errorsReported (fun _ _ h => h) hr hok hto
+
+/-- **inflight_complete, trace form**: if at the end every client has read the responses to the
+requests that reached a handler (`Settled`: the run is complete on the client side), every `Q c k` is
+followed by a complete `R c k`, and no truncated response is ever observed — whatever `Shutdown` did
+in between (no `okListen` needed). -/
+theorem obs_inflight_complete (cfg : Cfg) (n : Nat) (acts : List Act) (s : State)
+    (hr : run cfg (init n) acts = some s) (hset : Settled s) :
+    inflightComplete (obsRun cfg (init n) acts).toArray = [] :=
+  obs_inflightComplete hr hset
+
+/-- **run_satisfies_spec (partial).**  For every run of the model that respects `okListen`, ends
+client-complete and shows no `errShutdownTimeout`, four of the eight clauses of
+`ShutdownSpec.violations` are proved empty; what `violations` can still report is exactly the
+remaining four clauses (see TODO-OPEN). -/
+theorem run_satisfies_spec_partial (p : Params) (cfg : Cfg) (n : Nat) (acts : List Act) (s : State)
+    (hr : run cfg (init n) acts = some s) (hok : allOk okListen cfg (init n) acts = true) (hset : Settled s)
+    (hto : ∀ k, ¬ Has (obsRun cfg (init n) acts) (.T k "timeout")) :
+    violations p (obsRun cfg (init n) acts).toArray =
+      noSpuriousClose (obsRun cfg (init n) acts).toArray ++ bounded p (obsRun cfg (init n) acts).toArray ++
+      hooksRun p (obsRun cfg (init n) acts).toArray ++ prompt p (obsRun cfg (init n) acts).toArray := by
+  unfold violations
+  rw [obs_inflight_complete cfg n acts s hr hset, obs_close_after_shutdown cfg n acts s hr hok,
+    obs_no_accept_after_shutdown cfg n acts s hr hok, obs_second_shutdown_errors cfg n acts s hr hok hto]
+  simp
+
+/-- non-vacuity: a request in flight across a shutdown with a hook, a second call, a late dial;
+the run respects `okListen`, ends `Settled`, shows no timeout, and its projection has 14 events -/
+def specDemo : List Act := [.init, .markRunning, .listen, .accept, .reqArrive 0 false, .shutCall, .shutLoad 0, .shutCas 0,
+  .shutSpawn, .hookStart 0, .shutCloseLn, .handlerRet 0 false, .exitCheck 0, .writeResp 0, .clientRead 0 true, .connGone 0,
+  .clientEof 0, .hookEnd 0, .advance 10, .shutTick1, .shutFinish, .callerRet 0 .nil, .shutCall, .shutLoad 1,
+  .callerRet 1 .notRunning, .dialStart, .dialProbe 0, .dialEnd 0 false]
+
+example : allOk okListen { exitWait := 50 } (init 1) specDemo = true ∧
+    (run { exitWait := 50 } (init 1) specDemo).map (fun s => decide (∀ cn ∈ s.conns, cn.acked = cn.started)) = some true ∧
+    (obsRun { exitWait := 50 } (init 1) specDemo).length = 14 ∧
+    (obsRun { exitWait := 50 } (init 1) specDemo).all (fun e => e.ev != .T 0 "timeout" && e.ev != .T 1 "timeout") = true := by
+  decide
+
+/-- The hypothesis `okListen` is needed — the spec clause is FALSE of a model run without it: a
+`Shutdown` on an engine that has not started returns `errStatusNotRunning` (a `T` event, which
+`closeAfterShutdown` takes as proof that the status has flipped); the engine then starts and serves a
+keep-alive response.  (A weakness of the SPEC predicate, not of hertz: the harness never calls
+`Shutdown` before the server answers, except in the scripted `c18race`.) -/
+theorem spec_close_after_shutdown_fails_at :
+    closeAfterShutdown (obsRun { exitWait := 5 } (init 0) [.shutCall, .shutLoad 0, .callerRet 0 .notRunning, .init, .markRunning,
+      .listen, .accept, .reqArrive 0 false, .handlerRet 0 false, .exitCheck 0, .writeResp 0, .clientRead 0 false]).toArray ≠ [] := by
+  decide
+
+/-- The hypothesis `hto` is needed — the clause "the first `Shutdown` of a running server returns nil"
+is FALSE of the model (and of the code it mirrors) when `ExitWaitTimeout` exceeds the 30 s
+`shutdownTimeout` of `standard.transport.Shutdown` and a connection stays busy: the call returns
+`errShutdownTimeout`.  (Here with `maxWait := 30`, `exitWait := 100` clock units.) -/
+theorem spec_first_call_timeout_fails_at :
+    errorsReported (obsRun { exitWait := 100, maxWait := 30 } (init 0) [.init, .markRunning, .listen, .accept, .reqArrive 0 false,
+      .shutCall, .shutLoad 0, .shutCas 0, .shutSpawn, .shutCloseLn, .advance 10, .shutTick1, .advance 40, .shutTickLoop,
+      .shutFinish, .callerRet 0 .timeout]).toArray ≠ [] := by
+  decide
+
+end spec
+
 /-
 TODO-OPEN (not proved; checked per case by the correspondence harness):
- * the spec predicate `Hertz.ShutdownSpec.violations` holds of the observable projection of every
-   `run` of the model (would make "model accepts the trace" imply "spec holds of the trace").
- * liveness under fairness (every enabled step of a goroutine is eventually taken) — outside the
-   safety/enabledness fragment proved here.
+ * PROVED now (Proofs/ShutdownSpecBase, ShutdownSpecInv, ShutdownSpecRefine): for the observable
+   projection `obsRun` of every `run` (every schedule), the clauses `inflightComplete` (given `Settled`),
+   `closeAfterShutdown`, `noAcceptAfter`, `errorsReported` (given no observed `errShutdownTimeout`) of
+   `Hertz.ShutdownSpec.violations` are empty, under the environment hypothesis `okListen`
+   (`run_satisfies_spec_partial`).  The ghost-free trace form of close_after_shutdown is
+   `obs_close_after_shutdown` (and `close_after_shutdown_trace` above).
+ * STILL OPEN for `run_satisfies_spec`: the clauses `noSpuriousClose`, `hooksRun`, `bounded`, `prompt`.
+   - `noSpuriousClose`: safety, needs the event-sequence invariant "while no caller exists every
+     response's close flag is `rc || respClose` of its own `Q`/`X` events" (state side `SI1.winNone` is
+     proved: no caller ⇒ status = running while serving).
+   - `hooksRun`: (a) needs a completeness hypothesis (no hook left `spawned`); (b),(c) need the invariant
+     `S winK` time + exitWait ≤ dl; the state side (`GoneOrDl`, `Inv.retHooks`, `MI1.mHS/mHE`) is proved.
+   - `bounded`: a wall-clock statement; needs a promptness discipline for EVERY caller goroutine (not
+     only the winner as in `runPrompt`) plus "all callers finished"; `shutdown_bounded` gives the
+     winner's part (`t ≤ tcas + exitWait + tick`).
+   - `prompt`: FALSE of the model without a hypothesis on the peer: a client that closes (`C c`) while
+     its request is still in the handler lets `Shutdown` wait to the deadline although "all
+     connections were finished"; needs "peers close only connections without a request in flight" and
+     promptness of all connection goroutines.
+ * The projection drops what the model has no behaviour for (`F`, `FN`, truncated `R`, `RR`), and
+   stamps events with the model clock; the driver accepts a real trace if SOME run has that projection
+   up to time stamps (`e.t ≤ now`), so "model accepts ⇒ spec holds" is closed for the four clauses above
+   on traces whose time stamps are those of the witness run (the four clauses do not read time stamps).
+ * liveness under fairness: `shutdown_never_stuck` + `caller_never_blocks` say every phase of every
+   `Shutdown` call has an enabled step once its timer has fired (so a maximal run in which the clock
+   passes `dl` cannot end with a caller short of `finished`); `shutdown_bounded` bounds the return time
+   under `runPrompt`.  Not proved: the statement over infinite fair schedules / "every maximal finite
+   run ends with all callers finished", which needs a maximality predicate over `run`.
 -/
 
 end Hertz.Props.C18
